@@ -7,7 +7,7 @@ address.NewBtcAddress: base58, 25 bytes, double-SHA256 checksum, hash160 taken r
 byte; IsBlockedAccount / IsBlockedAccountRaw; checkTxBlockedAccountCore with its five reported positions;
 checkEVMTxBlockedTarget) and of the enforcement points: executor.execTx (proxy path: the inner transaction
 is the one that is checked) / checkTxGroup / procExecTxList's error receipts, consensus AddTxsToBlock,
-mempool checkTx / checkTxs, eventAddDelayTx / addDelayTx.  Core Lean only.
+mempool checkTx / checkTxs (incl. proxyExecInnerTx), eventAddDelayTx / addDelayTx.  Core Lean only.
 
 Address texts are `List Char`; the 20-byte identity of an account is `Raw`.
 -/
@@ -178,20 +178,54 @@ inductive PoolRes where
   | accepted | blocked | other
   deriving Repr, DecidableEq
 
-/-- mempool `checkTxs`: the members are checked one after the other, each first for its recipient address
-(`addrOk` = `address.CheckAddress(tx.To)` passes), then against the blacklist; `none` = every member passed. -/
-def poolMembers (set : List Raw) : List (TxV × Bool) → Option PoolRes
+/-- one submitted transaction as the pool sees it: `addrOk` = `address.CheckAddress(tx.To)` passes; `inner` is
+`proxyExecInnerTx(cfg, tx)`: `some` exactly when the transaction is a proxy-exec transaction — the signature type is
+the Ethereum sign id, `tx.To` is `exec.proxyExecAddress`, the real executor name is `evm`, the payload decodes as an
+`EVMContractAction4Chain33` with non-empty `Para` and `Para` decodes as a transaction — and then is that inner
+transaction carrying the outer signature (the transaction the executor will really execute). -/
+structure PoolTx where
+  outer : TxV
+  addrOk : Bool
+  inner : Option TxV
+  deriving Repr
+
+/-- the inner transaction of a proxy-exec member hits the blacklist. -/
+def innerHit (set : List Raw) (m : PoolTx) : Bool :=
+  match m.inner with
+  | some t => (core set t).isSome
+  | none => false
+
+/-- mempool `checkTxs` (after fix 1445781 in /repo): the members are checked one after the other, each first for its
+recipient address, then the member itself against the blacklist, then — for a proxy-exec member — its inner
+transaction; `none` = every member passed. -/
+def poolMembers (set : List Raw) : List PoolTx → Option PoolRes
   | [] => none
-  | (t, addrOk) :: rest =>
-    if !addrOk then some .other
-    else if (core set t).isSome then some .blocked
+  | m :: rest =>
+    if !m.addrOk then some .other
+    else if (core set m.outer).isSome then some .blocked
+    else if innerHit set m then some .blocked
     else poolMembers set rest
 
+/-- the pool as it was before the fix: the inner transaction of a proxy-exec member was not looked at (kept for the
+regression witness). -/
+def poolMembersPreFix (set : List Raw) : List PoolTx → Option PoolRes
+  | [] => none
+  | m :: rest =>
+    if !m.addrOk then some .other
+    else if (core set m.outer).isSome then some .blocked
+    else poolMembersPreFix set rest
+
 /-- mempool answer for a transaction or group; `reach`: the checks on the whole submission (signature, fee, size)
-passed; `base` = the answer with an empty blacklist. The pool looks at the submitted (outer) transactions only. -/
-def poolSubmit (set : List Raw) (ts : List (TxV × Bool)) (reach : Bool) (base : PoolRes) : PoolRes :=
+passed; `base` = the answer with an empty blacklist. -/
+def poolSubmit (set : List Raw) (ts : List PoolTx) (reach : Bool) (base : PoolRes) : PoolRes :=
   if !reach then base
   else match poolMembers set ts with
+    | some r => r
+    | none => base
+
+def poolSubmitPreFix (set : List Raw) (ts : List PoolTx) (reach : Bool) (base : PoolRes) : PoolRes :=
+  if !reach then base
+  else match poolMembersPreFix set ts with
     | some r => r
     | none => base
 
